@@ -27,6 +27,34 @@ func simDebugMain(args []string) int {
 		return 1
 	}
 	defer s.close()
+	if h := vkArg(args, "hist", ""); h != "" {
+		// history in the readable form printed by explore: "SN(n1) SS(n1) D(n2 0>1#0) ..."
+		for _, tok := range splitEvents(h) {
+			ev := s.enabled()
+			found := false
+			for _, e := range ev {
+				if e.String() == tok {
+					if err := s.apply(e, false); err != nil {
+						fmt.Println("apply error:", tok, err)
+						return 1
+					}
+					found = true
+					break
+				}
+			}
+			if !found {
+				fmt.Println("event not enabled:", tok)
+				break
+			}
+		}
+	}
+	if t := vkArgInt(args, "try", -1); t >= 0 {
+		ev := s.enabled()
+		fmt.Println("trying", ev[t])
+		if err := s.apply(ev[t], false); err != nil {
+			fmt.Println("apply error:", err)
+		}
+	}
 	steps := vkArgInt(args, "steps", 0)
 	for i := 0; ; i++ {
 		ev := s.enabled()
@@ -159,3 +187,25 @@ func simExploreMain(args []string) int {
 }
 
 func init() { vkCommands["explore"] = simExploreMain }
+
+func splitEvents(h string) []string {
+	var out []string
+	depth, start := 0, -1
+	for i, c := range h {
+		switch c {
+		case '(':
+			depth++
+		case ')':
+			depth--
+			if depth == 0 && start >= 0 {
+				out = append(out, strings.TrimSpace(h[start:i+1]))
+				start = -1
+			}
+		default:
+			if start < 0 && c != ' ' {
+				start = i
+			}
+		}
+	}
+	return out
+}
